@@ -1,7 +1,7 @@
 """C14 - a waiting sender gets its own answer, matched by Hop-by-Hop id, and always wakes."""
 import ast
 
-from ..astutil import make_cfg, call_name, fn_calls, must_pass, node_calls, walk_no_nested
+from ..astutil import strip_doc, make_cfg, call_name, fn_calls, must_pass, node_calls, walk_no_nested
 from ..paths import enum_paths, eval_bool, decide_by_assignments
 
 META = {
@@ -26,90 +26,125 @@ def check(ctx):
     sm = ctx.need(br.methods.get("send_message"), "Bromelia.send_message")
     construct = f"{br.qual}.send_message"
 
+    from .. import sym
     ctx.clause = "1-register-before-publish"
-    n = 0
-    waited = 0
-    for p in enum_paths(sm.body, decide=decide_by_assignments, loops="skip"):
-        calls = p.calls()
-        names = [call_name(c) for c, _ in calls]
-        pub = [i for i, nm in enumerate(names) if nm.endswith(".set_outgoing_message")]
-        ins = [i for i, nm in enumerate(names) if nm.endswith(".insert_pending_answer")]
-        pend_vars = {s_.targets[0].id for s_ in p.stmts() if isinstance(s_, ast.Assign) and isinstance(s_.targets[0], ast.Name)
-                     and isinstance(s_.value, ast.Call) and call_name(s_.value) == "PendingAnswer"}
-        wt = [i for i, nm in enumerate(names) if nm.endswith(".wait") and
-              (nm[:-5] in pend_vars or nm.startswith("PendingAnswer("))]
+    # on terms (bsa.sym), call order from the evaluation log: W = PendingAnswer(MSG) is inserted before MSG is handed to the
+    # worker, and the caller waits on that same W afterwards and returns W.msg
+    mparams = [a.arg for a in sm.args.args if a.arg != "self"]
+    msgp = mparams[0]
+    MSG = sym.S(msgp)
+    W = ("call", ("name", "PendingAnswer"), (MSG,), ())
+    env0 = {a_: sym.S(a_) for a_ in mparams}
+    n = waited = 0
+    try:
+        spaths = sym.Interp(fold=lambda e: repo.fold(br.mod, e), log_calls=True, limit=20000).run(strip_doc(sm.body), sym.PathState(env0, [], []))
+    except sym.TooMany:
+        spaths = []
+        ctx.undecided("R-MUSTPASS/order", construct, br.where(sm), "too many paths", key="paths")
+    for p in spaths:
+        ec = [e for e in p.effects if e[0] == "ecall" and isinstance(e[1], tuple) and e[1][0] == "call"]
+        fname = lambda e: e[1][1][2] if isinstance(e[1][1], tuple) and e[1][1][0] == "attr" else None
+        pub = [i for i, e in enumerate(ec) if fname(e) == "set_outgoing_message"]
+        ins = [i for i, e in enumerate(ec) if fname(e) == "insert_pending_answer"]
+        wt = [i for i, e in enumerate(ec) if fname(e) == "wait" and isinstance(e[1][1][1], tuple) and e[1][1][1][:2] == ("call", ("name", "PendingAnswer"))]
         if not pub:
             continue
         n += 1
         if not wt:
             ctx.hold("R-MUSTPASS/order", construct, br.where(sm), "path publishes without waiting (answer or fire-and-forget)",
                      key=f"nowait:{len(ins)}", nontrivial=False)
-            # a waiter registered but never awaited would leak; not part of the property
             continue
         waited += 1
         ok = bool(ins) and ins[0] < pub[0] < wt[0]
-        ctx.decide(ok, "R-MUSTPASS/order", construct, br.where(calls[pub[0]][0]),
+        ctx.decide(ok, "R-MUSTPASS/order", construct, br.where(ec[pub[0]][2]),
                    "waiter registered before the request is published, wait after",
                    "the request is handed to the worker (set_outgoing_message) before the waiter is inserted into "
                    "pending_answers: an answer dispatched in between finds no waiter, is dropped, and the caller blocks forever",
                    key="insert_before_publish")
-        # the waiter waited on is the one inserted, built from the message published
-        stm = {}
-        for s in p.stmts():
-            if isinstance(s, ast.Assign) and isinstance(s.targets[0], ast.Name):
-                stm[s.targets[0].id] = ast.unparse(s.value)
-        msgp = [a.arg for a in sm.args.args if a.arg != "self"][0]
-        insarg = ast.unparse(calls[ins[0]][0].args[0]) if ins and calls[ins[0]][0].args else None
-        ok2 = insarg is not None and stm.get(insarg) == f"PendingAnswer({msgp})" and names[wt[0]] == f"{insarg}.wait"
+        insarg = ec[ins[0]][1][2][0] if ins and ec[ins[0]][1][2] else None
+        awaited = ec[wt[0]][1][1][1]
+        pubarg = ec[pub[0]][1][2][0] if ec[pub[0]][1][2] else None
+        n_built = len([e for e in ec if e[1] == W])     # one PendingAnswer object: equal terms are the same object only then
+        ok2 = insarg == W and awaited == W and pubarg == MSG and n_built == 1
         ctx.decide(ok2, "R-ALIAS/waiter", construct, br.where(sm), "the waiter inserted is the one awaited, built from the request",
-                   f"inserted waiter `{insarg}` = {stm.get(insarg)}, awaited `{names[wt[0]]}`", key="same_waiter")
-        rets = ast.unparse(p.term_node.value) if p.term == "return" and p.term_node.value is not None else None
-        ctx.decide(rets == f"{insarg}.msg", "R-FLOW/waiter-result", construct, br.where(sm), "returns the waiter's message",
-                   f"a waiting caller returns `{rets}`", key="returns_msg", nontrivial=False)
+                   f"inserted waiter `{sym.show(insarg)}`, awaited `{sym.show(awaited)}`, published `{sym.show(pubarg)}`, "
+                   f"PendingAnswer objects built on the path: {n_built}", key="same_waiter")
+        rets = p.value if p.term == "return" else None
+        ctx.decide(rets == ("attr", W, "msg"), "R-FLOW/waiter-result", construct, br.where(sm), "returns the waiter's message",
+                   f"a waiting caller returns `{sym.show(rets)}`", key="returns_msg", nontrivial=False)
+        guard = any(tv and "is_request" in sym.show(c) for c, tv in p.conds) and any(tv and sym.show(c) == "recv_answer" for c, tv in p.conds)
+        ctx.decide(guard, "R-DOM/waits-for-requests", construct, br.where(sm),
+                   "waiting is conditioned on a request sent with recv_answer",
+                   f"a path waits for an answer without `is_request() and recv_answer`: {[(sym.show(c), tv) for c, tv in p.conds][:6]}",
+                   key="guard", nontrivial=False)
     ctx.floor("publishing_paths", n, 2)
     ctx.floor("waiting_paths", waited, 1)
-    # the wait is conditioned on request + recv_answer
-    tests = [ast.unparse(x.test) for x in walk_no_nested(sm) if isinstance(x, ast.If)]
-    ctx.decide(any("is_request()" in t and "recv_answer" in t for t in tests), "R-DOM/waits-for-requests", construct, br.where(sm),
-               "waiting is conditioned on a request sent with recv_answer", f"guards: {tests}", key="guard", nontrivial=False)
 
     ctx.clause = "2-registry-keys"
     ins = ctx.need(wk.methods.get("insert_pending_answer"), "Worker.insert_pending_answer")
     isp = ctx.need(wk.methods.get("is_pending_answer"), "Worker.is_pending_answer")
     get = ctx.need(wk.methods.get("get_pending_answer"), "Worker.get_pending_answer")
     rem = ctx.need(wk.methods.get("remove_pending_answer"), "Worker.remove_pending_answer")
-    pi = [a.arg for a in ins.args.args if a.arg != "self"][0]
-    keys = []
-    for d in [x for x in ast.walk(ins) if isinstance(x, ast.Dict)]:
-        for k, v in zip(d.keys, d.values):
-            keys.append((ast.unparse(k), ast.unparse(v)))
-    for x in ast.walk(ins):
-        if isinstance(x, ast.Assign) and isinstance(x.targets[0], ast.Subscript):
-            keys.append((ast.unparse(x.targets[0].slice), ast.unparse(x.value)))
-    ctx.decide(keys == [(f"{pi}.msg.header.hop_by_hop", pi)], "R-TABLE/pending-keys", f"{wk.qual}.insert_pending_answer", wk.where(ins),
-               "waiters are keyed by the request's Hop-by-Hop", f"insert writes {keys}", key="insert")
-    pm = [a.arg for a in isp.args.args if a.arg != "self"][0]
-    tests = [ast.unparse(x.test) for x in ast.walk(isp) if isinstance(x, ast.If)] + \
-            [ast.unparse(x.value) for x in ast.walk(isp) if isinstance(x, ast.Return) and x.value is not None and not isinstance(x.value, ast.Constant)]
-    ok = any(t in (f"{pm}.header.hop_by_hop in self.pending_answers.keys()", f"{pm}.header.hop_by_hop in self.pending_answers") for t in tests)
+    REG = ("attr", ("name", "self"), "pending_answers")
+    hbh = lambda obj: ("attr", ("attr", obj, "header"), "hop_by_hop")
+
+    def run(fn):
+        ps = [a.arg for a in fn.args.args if a.arg != "self"]
+        return ps, sym.Interp(log_calls=True).run(strip_doc(fn.body), sym.PathState({a_: sym.S(a_) for a_ in ps}, [], []))
+    ps_, paths_ = run(ins)
+    Pw = sym.S(ps_[0])
+    rows = []
+    for p in paths_:
+        ent = [(e[1], e[2], e[3]) for e in p.effects if e[0] == "setitem"]
+        rows.append([(sym.show(k), sym.show(v)) for _, k, v in ent])
+        okk = ent == [(REG, hbh(("attr", Pw, "msg")), Pw)]
+        ctx.decide(okk, "R-TABLE/pending-keys", f"{wk.qual}.insert_pending_answer", wk.where(ins),
+                   "waiters are keyed by the request's Hop-by-Hop", f"insert writes {rows[-1]}", key="insert")
+    ps_, paths_ = run(isp)
+    Mi = sym.S(ps_[0])
+    member = lambda t: isinstance(t, tuple) and t[0] == "cmp" and t[1] == "In" and t[2] == hbh(Mi) and \
+        t[3] in (REG, ("call", ("attr", REG, "keys"), (), ()))
+    ok, shown = bool(paths_), []
+    for p in paths_:
+        if p.term != "return":
+            ok = False
+            continue
+        dec = [tv for c, tv in p.conds if member(c)]
+        shown.append((sym.show(p.value), dec))
+        ok = ok and (member(p.value) or (dec and p.value is dec[0]) and len(dec) == 1)
     ctx.decide(ok, "R-TABLE/pending-keys", f"{wk.qual}.is_pending_answer", wk.where(isp),
-               "membership is tested with the answer's Hop-by-Hop", f"membership test: {tests}", key="is_pending")
-    pg = [a.arg for a in get.args.args if a.arg != "self"][0]
-    rets = [ast.unparse(x.value) for x in ast.walk(get) if isinstance(x, ast.Return) and x.value is not None]
-    ctx.decide(rets == [f"self.pending_answers[{pg}]"], "R-TABLE/pending-keys", f"{wk.qual}.get_pending_answer", wk.where(get),
-               "lookup indexes the registry with its argument", f"lookup returns {rets}", key="get")
+               "membership is tested with the answer's Hop-by-Hop", f"membership test: {shown}", key="is_pending")
+    ps_, paths_ = run(get)
+    Kg = sym.S(ps_[0])
+    rets = [p.value for p in paths_ if p.term == "return"]
+    ctx.decide(bool(rets) and all(r == ("sub", REG, Kg) for r in rets) and len(rets) == len(paths_), "R-TABLE/pending-keys",
+               f"{wk.qual}.get_pending_answer", wk.where(get),
+               "lookup indexes the registry with its argument", f"lookup returns {[sym.show(r) for r in rets]}", key="get")
     hp = ctx.need(br.methods.get("handler_pending_answers"), "Bromelia.handler_pending_answers")
-    hm = [a.arg for a in hp.args.args if a.arg != "self"][0]
-    gcalls = [c for c in fn_calls(hp) if call_name(c).endswith(".get_pending_answer")]
-    ok = len(gcalls) == 1 and [ast.unparse(a) for a in gcalls[0].args] == [f"{hm}.header.hop_by_hop"]
+    ps_, paths_ = run(hp)
+    Mh = sym.S(ps_[0])
+    gcalls = []
+    for p in paths_:
+        for e in p.effects:
+            if e[0] == "ecall" and isinstance(e[1], tuple) and e[1][0] == "call" and isinstance(e[1][1], tuple) and e[1][1][0] == "attr" \
+                    and e[1][1][2] == "get_pending_answer":
+                gcalls.append(e[1][2])
+    ok = bool(gcalls) and all(g == (hbh(Mh),) for g in gcalls)
     ctx.decide(ok, "R-TABLE/pending-keys", f"{br.qual}.handler_pending_answers", br.where(hp),
                "the dispatch side looks the waiter up by the answer's Hop-by-Hop",
-               f"dispatch looks up with {[ast.unparse(a) for c in gcalls for a in c.args]}", key="dispatch_lookup")
-    pr = [a.arg for a in rem.args.args if a.arg != "self"][0]
-    pops = [c for c in fn_calls(rem) if call_name(c) == "self.pending_answers.pop"]
-    ok = len(pops) == 1 and ast.unparse(pops[0].args[0]) == f"{pr}.msg.header.hop_by_hop"
-    ctx.decide(ok, "R-TABLE/pending-keys", f"{wk.qual}.remove_pending_answer", wk.where(rem),
-               "removal uses the Hop-by-Hop of the waiter's message", f"removal pops {[ast.unparse(c) for c in pops]}", key="remove")
+               f"dispatch looks up with {sorted({sym.show(a) for g in gcalls for a in g})}", key="dispatch_lookup")
+    ps_, paths_ = run(rem)
+    Pr = sym.S(ps_[0])
+    pops = []
+    for p in paths_:
+        pp = [e[1][2] for e in p.effects if e[0] == "ecall" and isinstance(e[1], tuple) and e[1][0] == "call"
+              and e[1][1] == ("attr", REG, "pop")]
+        dels = [e[1] for e in p.effects if e[0] == "del"]
+        pops.append(pp)
+        okp = len(pp) == 1 and pp[0][:1] == (hbh(("attr", Pr, "msg")),)
+        ctx.decide(okp, "R-TABLE/pending-keys", f"{wk.qual}.remove_pending_answer", wk.where(rem),
+                   "removal uses the Hop-by-Hop of the waiter's message",
+                   f"removal pops {[[sym.show(a) for a in x] for x in pp]} {[sym.show(d) for d in dels]}", key="remove")
 
     # the registry belongs to one worker (one connection): Hop-by-Hop identifiers are unique per connection only
     wini = ctx.need(wk.methods.get("__init__"), "Worker.__init__")
@@ -130,16 +165,20 @@ def check(ctx):
     ctx.clause = "2-update-notify-remove-order"
     # dispatch: guarded by is_pending_answer, update_msg(msg) before remove_pending_answer (which notifies then pops)
     found = False
-    for p in enum_paths(hp.body, loops="skip"):
-        names = [(call_name(c), c) for c, _ in p.calls()]
-        nm = [x for x, _ in names]
-        if any(x.endswith(".remove_pending_answer") for x in nm):
+    ps_, paths_ = run(hp)
+    Mh = sym.S(ps_[0])
+    for p in paths_:
+        ec = [e for e in p.effects if e[0] == "ecall" and isinstance(e[1], tuple) and e[1][0] == "call" and isinstance(e[1][1], tuple)
+              and e[1][1][0] == "attr"]
+        nm = [e[1][1][2] for e in ec]
+        if "remove_pending_answer" in nm:
             found = True
-            conds = {ast.unparse(t): tr for t, tr in p.conds()}
-            guarded = any("is_pending_answer" in t and tr for t, tr in conds.items())
-            iu = next((i for i, x in enumerate(nm) if x.endswith(".update_msg")), None)
-            ir = next(i for i, x in enumerate(nm) if x.endswith(".remove_pending_answer"))
-            upd_ok = iu is not None and iu < ir and [ast.unparse(a) for a in names[iu][1].args] == [hm]
+            guarded = any(tv and isinstance(c, tuple) and c[0] == "call" and isinstance(c[1], tuple) and c[1][0] == "attr"
+                          and c[1][2] == "is_pending_answer" and c[2] == (Mh,) for c, tv in p.conds)
+            iu = next((i for i, x in enumerate(nm) if x == "update_msg"), None)
+            ir = nm.index("remove_pending_answer")
+            waiter = ec[ir][1][2][0] if ec[ir][1][2] else None
+            upd_ok = iu is not None and iu < ir and ec[iu][1][2] == (Mh,) and ec[iu][1][1][1] == waiter
             ctx.decide(guarded and upd_ok, "R-MUSTPASS/dispatch-order", f"{br.qual}.handler_pending_answers", br.where(hp),
                        "waiter's message replaced by the answer before it is notified",
                        "the waiter is notified/removed before (or without) its message being replaced by the received answer, "
@@ -147,12 +186,17 @@ def check(ctx):
     ctx.decide(found, "R-MUSTPASS/dispatch-order", f"{br.qual}.handler_pending_answers", br.where(hp),
                "dispatch path that wakes the waiter exists", "no path of handler_pending_answers wakes a waiter", key="wakes",
                nontrivial=False)
-    nm = [call_name(c) for c in fn_calls(rem)]
-    inot = next((i for i, x in enumerate(nm) if x == f"{pr}.notify"), None)
-    ipop = next((i for i, x in enumerate(nm) if x == "self.pending_answers.pop"), None)
-    cfg = make_cfg(repo, rem)
-    ok = inot is not None and ipop is not None and inot < ipop and \
-        must_pass(cfg, lambda n: any(call_name(c) == f"{pr}.notify" for c in node_calls(n)))
+    ps_, paths_ = run(rem)
+    Pr = sym.S(ps_[0])
+    ok = bool(paths_)
+    for p in paths_:
+        if p.term == "raise":
+            continue
+        ec = [e[1] for e in p.effects if e[0] == "ecall" and isinstance(e[1], tuple) and e[1][0] == "call"]
+        inot = next((i for i, c in enumerate(ec) if c[1] == ("attr", Pr, "notify")), None)
+        ipop = next((i for i, c in enumerate(ec) if c[1] == ("attr", REG, "pop")), None)
+        idel = next((i for i, e in enumerate(p.effects) if e[0] == "del"), None)
+        ok = ok and inot is not None and (ipop is None or inot < ipop) and (ipop is not None or idel is not None)
     ctx.decide(ok, "R-MUSTPASS/dispatch-order", f"{wk.qual}.remove_pending_answer", wk.where(rem),
                "notify on every path, removal after notification",
                "remove_pending_answer does not notify the waiter on every path before removing it", key="notify_then_pop")
